@@ -103,6 +103,8 @@ def run(pid, tier, seed, replay=None):
         broken += ["rs2v: " + p for p in gp]
     obligations, discharged, aprobs, alog = C.audit(pid, getattr(mod, 'PROPS_FILES', None))
     broken += ["proof: " + p for p in aprobs]
+    if tier == "thorough" and replay is None and not aprobs:
+        broken += ["proof: " + p for p in C.coqchk(getattr(mod, 'PROPS_FILES', None) or [pid])]
     ok, lg = C.build_driver()
     if not ok:
         raise C.Broken("model driver does not build: " + lg[-1500:])
